@@ -584,7 +584,7 @@ func TestC06_JWT(t *testing.T) {
 			}
 			return n
 		}
-		edit := rapid.SampledFrom([]string{"none", "none", "alg-none-no-sig", "alg-none-with-sig", "alg-none-caps", "hs256-pubkey", "hs256-empty-key", "other-rsa-key", "payload-edit", "header-edit", "sig-of-other-token", "flip-sig", "strip-sig", "json-serialization", "ec-key-same-alg-name", "exp-extended", "four-parts", "payload-of-other-token", "key-rotated-away"}).Draw(rt, "edit")
+		edit := rapid.SampledFrom([]string{"none", "none", "alg-none-no-sig", "alg-none-with-sig", "alg-none-caps", "hs256-pubkey", "hs256-empty-key", "other-rsa-key", "payload-edit", "header-edit", "sig-of-other-token", "flip-sig", "strip-sig", "json-serialization", "ec-key-same-alg-name", "exp-extended", "four-parts", "payload-of-other-token", "key-rotated-away", "odd-header-member", "odd-header-member"}).Draw(rt, "edit")
 		mut := tok
 		claims := cp(cl0)
 		header := cp(hd)
@@ -640,6 +640,23 @@ func TestC06_JWT(t *testing.T) {
 			}
 		case "four-parts":
 			mut = tok + "." + p[2]
+		case "odd-header-member":
+			// header members of unexpected types make JOSE libraries fail *before* they look at the signature; such a
+			// failure is a rejection like any other. The payload is edited, so the signature can not be valid.
+			odd := rapid.SampledFrom([]struct {
+				k string
+				v interface{}
+			}{{"crit", 1}, {"crit", "exp"}, {"crit", []interface{}{}}, {"crit", []interface{}{"exp"}}, {"crit", map[string]interface{}{"a": 1}}, {"jwk", 5}, {"kid", 7}, {"kid", []interface{}{"a"}},
+				{"zip", "DEF"}, {"b64", false}, {"typ", 3}, {"x5c", "nope"}, {"nonce", 1}, {"jku", 1}}).Draw(rt, "oddMember")
+			header[odd.k] = odd.v
+			header["alg"] = rapid.SampledFrom([]string{"RS256", "RS256", "none", "HS256"}).Draw(rt, "oddAlg")
+			claims["sub"] = "someone-else"
+			claims["scp"] = []string{"a", "admin"}
+			sigPart := p[2]
+			if rapid.Bool().Draw(rt, "garbageSignature") {
+				sigPart = base64.RawURLEncoding.EncodeToString([]byte("not a signature at all"))
+			}
+			mut = enc(header) + "." + enc(claims) + "." + sigPart
 		}
 		if edit == "json-serialization" {
 			// another serialisation of the same header, payload and signature bytes: acceptance is not a forgery
